@@ -15,6 +15,7 @@ Line-protocol driver for the C19 model (query pipeline).
                              and runs, then a goes on (the window inside completeStage)
   end                        final observation
   leaf-new | leaf-send <nil|err>     LeafExecuteContext.SendResponse
+  bmeta <answer> ...         broker side of a metadata query: the nodes' answers in arrival order
   leafreq <data|data-collect-fails|meta|meta-notfound> (<node> ... | - | o | x)    one request on the real leaf path whose stages form this tree
                              (`-`: the request is refused before a pipeline exists and the task
                              handler answers; `o`: a request type Process omits; `x`: the task handler's own pool rejects the
@@ -30,6 +31,7 @@ The variant of the model is selected by the regenerated facts `completePassesFir
 -/
 import LinVerif.Util.Proto
 import LinVerif.Model.Pipeline
+import LinVerif.Model.BrokerMeta
 import LinVerif.Generated.C19
 
 namespace LinVerif.Driver.C19
@@ -88,6 +90,17 @@ def runToGate : Nat → State → Nat → State
     | none => s
 
 def fuel : Nat := 100000
+
+/-- one answer of the `bmeta` op; `some none` = the request could not be sent -/
+def parseBm (w : String) : Option (Option BrokerMeta.Resp) :=
+  if w = "sf" then some none
+  else if w = "nf" then some (some (.ok []))
+  else if w = "err" then some (some .err)
+  else if w = "bad" then some (some .bad)
+  else if w.startsWith "ok:" then
+    let body := (w.drop 3).toString
+    some (some (.ok (if body = "" then [] else body.splitOn ",")))
+  else none
 
 /-- who answers a request: the regenerated facts about Process's return value and the pool -/
 def reqCfg : ReqCfg :=
@@ -190,6 +203,20 @@ def step (st : St) (ws : List String) : St × String :=
       let s := runAll fuel (Pipeline.init root)
       (st, showResponses (runResponses reqCfg tolerated collectFails s))
     | _, _ => (st, "bad-op")
+  | "bmeta" :: toks =>
+    -- broker side of a metadata query: the nodes' answers in arrival order (`sf`: the request could
+    -- not be sent, `ok:v1,v2`, `nf`, `err`, `bad`)
+    match toks.mapM parseBm with
+    | some items =>
+      let sendFailed := items.any (·.isNone)
+      let rs := items.filterMap id
+      let f := BrokerMeta.run Generated.C19.metadataToleratesErrMsg items.length sendFailed rs
+      if !f.completed then (st, "none")
+      else if f.err then (st, "err")
+      else
+        let vs := (f.results.toArray.qsort (· < ·)).toList.eraseDups
+        (st, "ok " ++ ",".intercalate vs)
+    | none => (st, "bad-op")
   | ["leaf-new"] => ({ st with leaf := Leaf.init }, "ok")
   | ["leaf-send", e] =>
     if e = "nil" || e = "err" then
